@@ -78,6 +78,8 @@ class Index:
         for d in docs:
             if d.get('kind') == 'NamespaceDecl':
                 self._walk(d, '', None)
+            elif d.get('kind') in ('FunctionDecl',) and d.get('name'):
+                self._walk(d, '', None)       # a file-local function delivered by an extra ast filter
         # second pass: out-of-line definitions
         for d in docs:
             if d.get('kind') == 'NamespaceDecl':
@@ -2152,9 +2154,15 @@ class Unit:
     # -- loading
     def load(self, tu):
         dump = os.path.join(self.workdir, sanitize(tu) + '.ast.json')
-        clang_dump(self.repo, tu, dump)
+        # config ast_filter: a substring that matches 'Oomd' AND the file-local functions under contract (one dump, so
+        # that node ids agree); only namespace Oomd and the configured top-level functions are indexed from it
+        clang_dump(self.repo, tu, dump, filt=self.cfg.get('ast_filter', 'Oomd'))
         docs = load_docs(dump)
         os.remove(dump)
+        if self.cfg.get('ast_filter'):
+            want = {f['qname'] for f in self.cfg['functions'] if '::' not in f['qname']}
+            docs = [d for d in docs if (d.get('kind') == 'NamespaceDecl' and d.get('name') == 'Oomd') or
+                    (d.get('kind') == 'FunctionDecl' and d.get('name') in want)]
         self.index = Index(docs)
         self.types = Types(self.cfg, self.index)
         for fn in self.cfg['functions']:
